@@ -38,6 +38,11 @@ CHECKS = {
    note="Trusted: Coq kernel/vm_compute; Model/History.v; Python harness; determinism of the back-end up to 1e-7 between separate runs. Known finding: MeanFieldTempo failure in a Runge-Kutta stage.",
    technique="Coq proof: state machine over an opaque back-end, induction over call histories + exhaustive small-history and fault enumeration on the implementation",
    design="3/C14"),
+ "C19": dict(
+   text="Theorems (Coq): the ProgressBar/Timer protocol as a transition system (timer objects, lock-serialised enter/update/exit by the caller, timer firings, pending callbacks running update on the timer thread): for every interleaving of any length, whenever the bar is closed no timer is armed, at most one timer is ever armed, and nothing but a new enter re-opens a closed bar (quiescent, one_timer_at_most, exit_then_nothing_rearms: inductive invariant, unbounded); the unlocked protocol is refuted by a 7-step trace; with a with/finally bracket exit runs for every number of updates and failure point (exit_always). Tied to /repo by replaying every model trace up to a bound on the real ProgressBar with a deterministic Timer, by pre-empting update/exit/callback at each shared-state operation with real threads (outcome must be a serial outcome of the model), by a recording progress class per API x failure point, and by child interpreters with the real Timer.",
+   note="Trusted: Coq kernel/vm_compute; Model/Progress.v; Python harness (FakeTimer, scheduler). Not carried by the model: CPython's threading.Timer and interpreter shutdown (observed in child processes only); pre-emption is modelled at Timer construction/start/cancel only.",
+   technique="Coq inductive invariant over an interleaving transition system + trace replay / pre-emption injection / fault enumeration on the implementation",
+   design="3/C19"),
 }
 
 NOT_YET = {}
